@@ -476,4 +476,95 @@ theorem sparse_completion (st : Stat) (k : String) (win : List SCtx) :
     (∀ m, ImpStat st (present (sparseCol k win)) m ↔ ImpStat st (present (win.map (getD0 k))) m) :=
   ⟨sparseCol_perm k win, sparse_completion_stat' st k win⟩
 
+
+/-! ## phase 4 — exception values inside `_get_shift_and_scale`, ragged dense rows, option tables tied to the source -/
+
+/-- `fit` (parameters or `None`) is `fitE` — the body of the `try` with the exception it raises — with the exception
+forgotten; and the only class the handler `except (TypeError,ValueError)` does not catch (`IndexError`, from `percentile`)
+never arises, so `_get_shift_and_scale` never lets an exception out: for every window, configuration and `sd` -/
+theorem fit_exception_values (sd : List Rat → Rat) (cfg : Cfg) (w : List Val) :
+    fit sd cfg w = (match fitE sd cfg w with | .ok p => some p | .error _ => none) ∧
+    fitE sd cfg w ≠ .error .indexError ∧
+    getShiftAndScale scaleHandlers sd cfg w = .ok (fit sd cfg w) :=
+  ⟨fit_eq_fitE' sd cfg w, fitE_no_indexError' sd cfg w, getShiftAndScale_eq' sd cfg w⟩
+
+/-- `TypeError` exactly for a window holding a string, unless nothing looks at the values (numeric shift with numeric
+scale, or with `iqr` of at most one non-missing value) -/
+theorem fit_type_error_iff (sd : List Rat → Rat) (cfg : Cfg) (w : List Val) :
+    fitE sd cfg w = .error .typeError ↔
+      w.any Val.isStr = true ∧
+        ¬ ∃ a, cfg.shift = .num a ∧ ((∃ b, cfg.scale = .num b) ∨ (cfg.scale = .iqr ∧ presentCount w ≤ 1)) :=
+  fitE_typeError' sd cfg w
+
+/-- plain `ValueError` (`min()`/`max()` of an empty list) exactly for a string-free window without numbers under shift
+`min`, or under a numeric shift with `minmax`/`maxabs` -/
+theorem fit_value_error_iff (sd : List Rat → Rat) (cfg : Cfg) (w : List Val) :
+    fitE sd cfg w = .error .valueError ↔
+      w.any Val.isStr = false ∧ nums w = [] ∧
+        (cfg.shift = .min ∨ ((∃ a, cfg.shift = .num a) ∧ (cfg.scale = .minmax ∨ cfg.scale = .maxabs))) :=
+  fitE_valueError' sd cfg w
+
+/-- `statistics.StatisticsError` exactly for a string-free window that is empty under `mean`/`median`, or has fewer than
+two numbers under `std` (when the shift did not fail first) -/
+theorem fit_statistics_error_iff (sd : List Rat → Rat) (cfg : Cfg) (w : List Val) :
+    fitE sd cfg w = .error .statisticsError ↔
+      w.any Val.isStr = false ∧
+        ((nums w = [] ∧ (cfg.shift = .mean ∨ cfg.shift = .median)) ∨
+         (((∃ a, cfg.shift = .num a) ∨ nums w ≠ []) ∧ cfg.scale = .std ∧ (nums w).length < 2)) :=
+  fitE_statisticsError' sd cfg w
+
+example : fitE (fun _ => 1) ⟨.min, .minmax, none⟩ [.num 3, .str "x"] = .error .typeError := by decide
+example : fitE (fun _ => 1) ⟨.min, .minmax, none⟩ [.nil, .nan] = .error .valueError := by decide
+example : fitE (fun _ => 1) ⟨.mean, .minmax, none⟩ [.nil] = .error .statisticsError := by decide
+example : fitE (fun _ => 1) ⟨.min, .std, none⟩ [.num 3, .nil] = .error .statisticsError := by decide
+example : fitE (fun _ => 1) ⟨.num 2, .iqr, none⟩ [.nil, .str "x"] = .ok (2, 1) := by decide
+
+/-- a handler that caught `TypeError` only would let the `ValueError` of an all-missing window out of the function
+(boundary of `fit_exception_values`: the handler tuple matters) -/
+theorem narrow_handler_counterexample :
+    getShiftAndScale ["TypeError"] (fun _ => 1) ⟨.min, .minmax, none⟩ [.nil, .nan] = .error .valueError := by decide
+
+/-- ragged dense rows are OUTSIDE the property's quantifier (a feature is a column of every interaction); the model says
+what the code does: on rectangular data — every context as long as the first — no `IndexError` can arise and the filter is
+`scaleDenseFull` (all theorems above apply) -/
+theorem scale_dense_rectangular (sd : List Rat → Rat) (cfg : Cfg) (rows : List (List Val)) (h : Rect rows = true) :
+    scaleDenseE sd cfg rows = .ok (scaleDenseFull sd cfg rows) := scaleDenseE_rect' sd cfg rows h
+
+example : Rect [[.num 1, .str "a"], [.nil, .str "b"]] = true := by decide
+
+/-- the hypothesis `Rect` is necessary: a short row inside the window raises `IndexError`; a short row after the window
+raises it only if the missing column got parameters (`std` of one value gives none → pass-through) -/
+theorem scale_dense_ragged_counterexample :
+    scaleDenseE (fun _ => 1) ⟨.num 0, .num 2, none⟩ [[.num 1, .num 2], [.num 3]] = .error .indexError ∧
+    scaleDenseE (fun _ => 1) ⟨.num 0, .num 2, some 1⟩ [[.num 1, .str "x", .num 5], [.num 2]] = .error .indexError ∧
+    scaleDenseE (fun _ => 1) ⟨.num 0, .std, some 1⟩ [[.num 1, .str "x", .num 5], [.num 2]] =
+      .ok [[.num 1, .str "x", .num 5], [.num 2]] := by decide +kernel
+
+/-- the option tables: a string is accepted by the model's table iff it is one of the listed names -/
+theorem option_tables (s : String) :
+    (shiftOfName s = none ↔ s ∉ shiftNames) ∧ (sclOfName s = none ↔ s ∉ scaleNames) ∧ (statOfName s = none ↔ s ∉ statNames) :=
+  ⟨shiftOfName_none_iff' s, sclOfName_none_iff' s, statOfName_none_iff' s⟩
+
+/-- TRANSLATOR OBLIGATION.  What `harness/props/c11.py` extracts from the CURRENT source with `ast` — the accepted
+`shift`/`scale`/`stat` strings (the constructors' asserts), the dispatch of `_shift_value`/`_scale_value`/`_get_imputation`
+(option string → functions called), the degenerate-feature threshold and the `except` tuple of `_get_shift_and_scale` —
+equals the model's tables -/
+theorem options_match_source :
+    Coba.Generated.C11.shiftAccepted = shiftNames ∧ Coba.Generated.C11.scaleAccepted = scaleNames ∧
+    Coba.Generated.C11.statAccepted = statNames ∧ Coba.Generated.C11.shiftDispatch = shiftTable ∧
+    Coba.Generated.C11.scaleDispatch = sclTable ∧ Coba.Generated.C11.statDispatch = statTable ∧
+    Coba.Generated.C11.guard = guardThreshold ∧ Coba.Generated.C11.handlers = scaleHandlers := options_match_source'
+
+/-- TRANSLATOR OBLIGATION.  The keyword defaults of `Scale.__init__`, `Environments.scale`, `Impute.__init__` and
+`Environments.impute` in the source are the ones the model's argument glue uses for omitted keywords -/
+theorem defaults_match_source :
+    Coba.Generated.C11.ctorScale.tuple = (scaleCtorCfg ⟨none, none, none, none⟩).tuple ∧
+    Coba.Generated.C11.envScale.map ScaleCfg.tuple = (envScaleFilters ⟨none, none, none, none⟩).map ScaleCfg.tuple ∧
+    [Coba.Generated.C11.ctorImpute] = envImputeFilters ⟨none, none, none⟩ ∧
+    Coba.Generated.C11.envImpute = envImputeFilters ⟨none, none, none⟩ := defaults_match_source'
+
+/-- the guard of `_scale_value` in terms of the extracted threshold -/
+theorem guard_threshold (nd : Rat × Rat) : guardDiv nd = if nd.2 < guardThreshold then nd.1 else nd.1 / nd.2 :=
+  guardDiv_threshold' nd
+
 end Coba.C11
